@@ -258,3 +258,120 @@ Proof.
   rewrite p_is_quoted_dq_wrapped.
   rewrite maybe_remove_quotes_wrapped by (left; reflexivity). reflexivity.
 Qed.
+
+(* ------------------------------------------------------------------------------------ *)
+(* Part 4: ParseOperator                                                                *)
+(* ------------------------------------------------------------------------------------ *)
+Definition alnum_ (c : N) : bool :=
+  ((48 <=? c) && (c <=? 57)) || ((65 <=? c) && (c <=? 90)) || ((97 <=? c) && (c <=? 122)) || (c =? 95).
+
+Lemma p_mem_In k l : p_mem k l = true -> In k l.
+Proof.
+  induction l as [|x l IH]; [discriminate|]. cbn [p_mem]. intros H. apply orb_prop in H as [H|H].
+  - left. symmetry. now apply bytes_eqb_eq.
+  - right. now apply IH.
+Qed.
+
+Lemma p_assoc_In {A} k (l : list (bytes * A)) v : p_assoc k l = Some v -> In (k, v) l.
+Proof.
+  induction l as [|[k' v'] l IH]; [discriminate|]. cbn [p_assoc].
+  destruct (bytes_eqb k k') eqn:E.
+  - intros H. inversion H; subst. apply bytes_eqb_eq in E. subst. now left.
+  - intros H. right. now apply IH.
+Qed.
+
+Definition name_ok (n : bytes) : bool := forallb alnum_ n && negb (match n with [] => true | _ => false end).
+
+Lemma operator_names_ok : forallb name_ok operator_table = true.
+Proof. vm_compute. reflexivity. Qed.
+
+Lemma operator_known_ok name : operator_known name = true -> forallb alnum_ name = true /\ name <> [].
+Proof.
+  intros H. apply p_mem_In in H.
+  pose proof (proj1 (forallb_forall name_ok operator_table) operator_names_ok name H) as Hk.
+  unfold name_ok in Hk. apply andb_prop in Hk as [H1 H2]. split; [exact H1|].
+  destruct name; [discriminate|congruence].
+Qed.
+
+Lemma alnum_nsp c : alnum_ c = true -> nsp c = true.
+Proof.
+  unfold alnum_, nsp, p_is_ascii_space. intros H.
+  repeat match goal with
+  | H : _ || _ = true |- _ => apply orb_prop in H as [H|H]
+  | H : _ && _ = true |- _ => apply andb_prop in H as [? ?]
+  end;
+  repeat match goal with
+  | H : (_ <=? _) = true |- _ => apply N.leb_le in H
+  | H : (_ =? _) = true |- _ => apply N.eqb_eq in H
+  end;
+  (apply andb_true_intro; split; [apply N.ltb_lt; lia|]);
+  apply negb_true_iff; repeat (apply orb_false_intro); apply N.eqb_neq; lia.
+Qed.
+
+Lemma alnum_ne c ch : alnum_ c = true -> alnum_ ch = false -> (c =? ch) = false.
+Proof. intros H1 H2. apply N.eqb_neq. intros E. subst. congruence. Qed.
+
+Lemma forallb_alnum_no_byte s ch : forallb alnum_ s = true -> alnum_ ch = false -> no_byte ch s = true.
+Proof.
+  intros H Hc. unfold no_byte. apply forallb_forall. intros x Hx.
+  apply negb_true_iff. apply alnum_ne; [|exact Hc]. exact (proj1 (forallb_forall _ _) H x Hx).
+Qed.
+
+Lemma last_alnum s d : forallb alnum_ s = true -> s <> [] -> alnum_ (last s d) = true.
+Proof.
+  intros H Hne. apply (proj1 (forallb_forall _ _) H).
+  destruct s as [|c s]; [congruence|]. clear.
+  revert c. induction s as [|x s IH]; intros c; [now left|]. right. apply IH.
+Qed.
+
+Lemma last_app_ne {A} (a b : list A) d : b <> [] -> last (a ++ b) d = last b d.
+Proof.
+  intros Hb. induction a as [|x a IH]; [reflexivity|].
+  cbn [app]. destruct (a ++ b) eqn:E.
+  - destruct a; [cbn in E; congruence|discriminate].
+  - exact IH.
+Qed.
+
+Lemma po_render name neg arg :
+  operator_known name = true -> p_trim_space arg = arg ->
+  parse_operator (op_prefix neg ++ name ++ match arg with [] => [] | _ => cSP :: arg end)
+  = Some (mk_op (op_prefix neg ++ name) name neg arg).
+Proof.
+  intros Hk Ht. destruct (operator_known_ok name Hk) as [Hal Hne].
+  assert (Hnsp : no_byte cSP (op_prefix neg ++ name) = true).
+  { rewrite no_byte_app. rewrite (forallb_alnum_no_byte name cSP Hal eq_refl).
+    destruct neg; reflexivity. }
+  assert (Htrim : p_trim_space (op_prefix neg ++ name) = op_prefix neg ++ name).
+  { apply (p_trim_space_id _ 0).
+    - destruct neg; discriminate.
+    - destruct neg; reflexivity.
+    - unfold p_last. rewrite last_app_ne by exact Hne. apply alnum_nsp. now apply last_alnum. }
+  unfold parse_operator.
+  assert (Hn : po_normalise (op_prefix neg ++ name ++ match arg with [] => [] | _ => cSP :: arg end)
+               = op_prefix neg ++ name ++ match arg with [] => [] | _ => cSP :: arg end).
+  { destruct name as [|n0 name]; [congruence|]. destruct neg; reflexivity. }
+  rewrite Hn. clear Hn.
+  assert (Hcut : p_cut cSP (op_prefix neg ++ name ++ match arg with [] => [] | _ => cSP :: arg end)
+                 = (op_prefix neg ++ name, arg, match arg with [] => false | _ => true end)).
+  { destruct arg as [|a0 arg].
+    - rewrite app_nil_r. apply p_cut_none. exact Hnsp.
+    - rewrite app_assoc. apply p_cut_app. exact Hnsp. }
+  rewrite Hcut. rewrite Htrim, Ht.
+  destruct name as [|n0 name]; [congruence|].
+  destruct neg; cbn [op_prefix app]; unfold cBANG, cAT; cbn [N.eqb Pos.eqb andb]; rewrite Hk; reflexivity.
+Qed.
+
+Lemma escape_dq_app_noq a b : no_byte cDQ a = true -> escape_dq (a ++ b) = a ++ escape_dq b.
+Proof.
+  induction a as [|c a IH]; intros H; [reflexivity|].
+  rewrite no_byte_cons in H. apply andb_prop in H as [Hc Ha]. apply negb_true_iff in Hc.
+  cbn [app escape_dq]. rewrite Hc. now rewrite (IH Ha).
+Qed.
+
+Lemma wf_esc_app_plain a b :
+  no_byte cDQ a = true -> no_byte cBS a = true -> wf_esc b false = true -> wf_esc (a ++ b) false = true.
+Proof.
+  induction a as [|c a IH]; intros H1 H2 H3; [exact H3|].
+  rewrite no_byte_cons in H1, H2. apply andb_prop in H1 as [Hc1 Ha1]. apply andb_prop in H2 as [Hc2 Ha2].
+  apply negb_true_iff in Hc1, Hc2. cbn [app wf_esc]. rewrite Hc1, Hc2. now apply IH.
+Qed.
